@@ -39,3 +39,41 @@ package segment
 //@   modifies nothing
 //@   ensures fresh(result)
 //@   loop 1 invariant fresh(res)
+
+// ---------------------------------------------------------------- C14: the sender side
+// maxPayloadSize is a package variable (initialised to 1196-8, reassigned only by export_test.go)
+//@ global maxPayloadSize == 1188
+// send puts exactly one datagram on the wire: the 8-byte header (sequence number, highest segment
+// index, this segment's index, big endian) followed by the payload bytes unchanged.
+//@ func send
+//@   props C14
+//@   nopanic
+//@   requires[unchecked] wr != nil
+//@   ghostvar sent int = 0
+//@   assert call SendDatagram: sent == 0 && len(arg0) == 8 + len(msgPayload) && be32(arg0, 0) == seqNum && be16(arg0, 4) == maxIdx && be16(arg0, 6) == segIdx
+//@   assert call SendDatagram: forall(i, int, imp(0 <= i && i < len(msgPayload), arg0[8 + i] == old(msgPayload[i])))
+//@   after call SendDatagram: sent = sent + 1
+//@   ensures imp(result1 == nil, sent == 1 && result0 == 8 + len(msgPayload))
+//@   ensures imp(result1 != nil, result0 == 0)
+
+// SendTo cuts a message into consecutive pieces of at most maxPayloadSize bytes: the pieces are
+// sent in index order 0,1,2,... without gap or repetition, piece k carries exactly the next
+// len(piece) bytes of the message, all pieces carry the caller's sequence number and the same
+// announced highest index, and on success the pieces cover the whole message and their number is
+// the announced highest index + 1 (what the receiver waits for). A message that would need more
+// than 65536 segments is refused before anything is sent.
+//@ func SendTo
+//@   props C14
+//@   nopanic
+//@   requires[unchecked] wr != nil
+//@   ghostvar nsent int = 0
+//@   ghostvar off int = 0
+//@   ghostvar top int = 0
+//@   assert call send: arg1 == seqNum && arg2 == nsent && imp(nsent > 0, arg3 == top) && arg3 <= 65535
+//@   assert call send: len(arg4) <= maxPayloadSize && off + len(arg4) <= len(msgPayload) && forall(i, int, imp(0 <= i && i < len(arg4), arg4[i] == msgPayload[off + i]))
+//@   after call send: top = arg3
+//@   after call send: off = ite(res1 == nil, off + len(arg4), off)
+//@   after call send: nsent = ite(res1 == nil, nsent + 1, nsent)
+//@   ensures imp(result1 == nil, off == len(msgPayload) && nsent == top + 1)
+//@   ensures imp(len(msgPayload) / maxPayloadSize > 65535, result1 != nil && nsent == 0)
+//@   loop 1 invariant nsent == segIdx && 0 <= segIdx && segIdx <= maxSegIdx + 1 && off == ite(segIdx <= maxSegIdx, segIdx * maxPayloadSize, len(msgPayload)) && maxSegIdx == len(msgPayload) / maxPayloadSize && maxSegIdx <= 65535 && imp(nsent > 0, top == maxSegIdx)
